@@ -46,6 +46,14 @@ Lin(t) ==
             Announce(k, Eps[t].cb) /\ call' = [call EXCEPT ![t].st = "announced"] /\ UNCHANGED expect
        [] c.op = "connect" /\ c.st = "announced" ->
             CanSeePeer(k) /\ Done(t, "ok") /\ UNCHANGED <<avars, expect>>
+       \* a second, plain socket with the same key (the endpoint closed its first one); the use_callbacks attribute of a
+       \* connected socket is only a flag
+       [] c.op = "connectp" /\ c.st = "called" ->
+            Announce(k, FALSE) /\ call' = [call EXCEPT ![t].st = "announced"] /\ UNCHANGED expect
+       [] c.op = "connectp" /\ c.st = "announced" ->
+            CanSeePeer(k) /\ Done(t, "ok") /\ UNCHANGED <<avars, expect>>
+       [] c.op = "cbflag" /\ c.st = "called" ->
+            Done(t, "ok") /\ UNCHANGED <<avars, expect>>
        [] c.op = "send" /\ c.st = "called" /\ c.conn /\ ~Connected(k) /\ k \in open ->
             \* the peer left while this send was in progress: the message may still be accepted
             \* (it is queued for an endpoint that no longer reads) or refused
